@@ -73,6 +73,14 @@ def _impl():
     return core, dcmstack_cli, nitool_cli, extract, dcmmeta
 
 
+def _case_start():
+    """Every case starts from the module state at import (as if it ran in its own process), so that a case
+    is self-contained and replayable; nothing is reset BETWEEN the invocations of a case."""
+    core = _impl()[0]
+    core.default_key_excl_res[:] = _PRISTINE[0]
+    core.default_key_incl_res[:] = _PRISTINE[1]
+
+
 @contextlib.contextmanager
 def _quiet():
     out, err = io.StringIO(), io.StringIO()
@@ -372,7 +380,7 @@ def _run_recorded(opts):
 
 def _api_equivalent(opts, pristine):
     """What the API produces for the same request: parse_and_stack + to_nifti with the filter built from the
-    PRISTINE defaults plus the -e / -i options.  Returns {path-less list per dir: [summary...]} or the error."""
+    PRISTINE defaults plus the -e / -i options (parse_and_group, stack_group, to_nifti).  Returns {path-less list per dir: [summary...]} or the error."""
     from glob import glob
     core, cli, nit, extract, dcmmeta = _impl()
     gen_meta = bool(opts.get('embed_meta') or opts.get('dump_meta'))
@@ -411,9 +419,12 @@ def _api_equivalent(opts, pristine):
         res = []
         try:
             with _quiet():
-                stacks = core.parse_and_stack(paths, group_by, extractor, bool(opts.get('force_read')), not opts.get('strict'),
-                                              time_order=t_ord, vector_order=v_ord, meta_filter=flt)
-                for key, st in stacks.items():
+                # parse_and_stack = parse_and_group + stack_group per group; done group by group, as the tool does, so that
+                # an exception on a later group leaves the earlier results in place
+                groups = core.parse_and_group(paths, group_by, extractor, bool(opts.get('force_read')), not opts.get('strict'))
+                for key, group in groups.items():
+                    st = core.stack_group(group, warn_on_except=not opts.get('strict'), time_order=t_ord, vector_order=v_ord,
+                                          meta_filter=flt)
                     nii = st.to_nifti(vo, bool(opts.get('embed_meta')))
                     s = _img_summary(nii, dcmmeta)
                     if opts.get('dump_meta'):
@@ -544,6 +555,7 @@ class Names:
     @staticmethod
     def run_impl(case):
         core, cli, nit, extract, dcmmeta = _impl()
+        _case_start()
         cwd0 = os.getcwd()
         d = _scratch()
         try:
@@ -739,6 +751,7 @@ class State:
     @staticmethod
     def run_impl(case):
         core, cli, nit, extract, dcmmeta = _impl()
+        _case_start()
         pristine = (list(_PRISTINE[0]), list(_PRISTINE[1]))
         cwd0 = os.getcwd()
         d = _scratch()
@@ -1128,6 +1141,7 @@ class Nitool:
     def run_impl(case):
         import numpy as np, nibabel as nb
         core, cli, nit, extract, dcmmeta = _impl()
+        _case_start()
         cwd0 = os.getcwd()
         d = _scratch()
         before = [list(core.default_key_excl_res), list(core.default_key_incl_res)]
